@@ -128,6 +128,20 @@ def ancestorExpired (w : World) : Nat → IId → Bool
     | .inst j => ownExpired w j || ancestorExpired w fuel j
     | _ => false
 
+/-- the instance and the instances it runs inside of (through inline activations), innermost first -/
+def execChain (w : World) : Nat → IId → List IId
+  | 0, i => [i]
+  | fuel+1, i =>
+    match (w.inst i).exec with
+    | .inst j => i :: execChain w fuel j
+    | _ => [i]
+
+/-- has the cancellation of instance `i` already been set in motion: its own task is cancelled, or — it being suspended
+    in an inline activation — the cancellation was handed to an instance running inside it, which is still cleaning up -/
+def cancelInProgress (w : World) (i : IId) : Bool :=
+  (List.range w.ni).any fun j =>
+    (w.inst j).cancelling && (w.inst j).st != .finished && (execChain w (w.ni + 1) j).contains i
+
 def cancelDue (w : World) (i : IId) : Bool := ownExpired w i || ancestorExpired w (w.ni + 1) i
 
 /-- is `e` equal to `c` or a descendant of `c` through the parent relation -/
